@@ -136,7 +136,19 @@ func defsRun(s *Summary, l defsLine) {
 				r.Group("/", func() { rux.NewRoute(path, handler, method).Use(mw[half:]...).AttachTo(r) }, mw[:half]...)
 				return
 			}
-			r.Add(path, handler, method).Use(mw...)
+			// the registration entry points take turns: every one of them applies the same checks
+			switch oi % 4 {
+			case 1:
+				r.AddNamed("n", path, handler, method).Use(mw...)
+			case 2:
+				r.AddRoute(rux.NewNamedRoute("n", path, handler, method)).Use(mw...)
+			case 3:
+				rt := rux.NewNamedRoute("n", path, handler, method)
+				rt.AttachTo(r)
+				rt.Use(mw...)
+			default:
+				r.Add(path, handler, method).Use(mw...)
+			}
 		}()
 		compared++
 		verdict := l.Verdict
